@@ -186,7 +186,9 @@ def gen(rng, tier):
         yield {"kind": "pair", "fsa": fa, "fsb": fb, "a": a, "b": b}
     for _ in range(nt):
         dirs, files = rand_tree(rng)
-        yield {"kind": "resolve", "dirs": dirs, "files": files, "fsAt": "r/p/fs",
+        # non-directories of other file types (unix sockets and block devices share a mode bit with directories)
+        fkinds = {f: rng.choice(["sock", "sock", "fifo", "blk"]) for f in files if rng.random() < 0.35}
+        yield {"kind": "resolve", "dirs": dirs, "files": files, "fkinds": fkinds, "fsAt": "r/p/fs",
                "pattern": rand_pattern(rng) if rng.random() < 0.3 else pattern_from_tree(rng, dirs, files),
                "fs_trailing_slash": rng.random() < 0.2}
 
